@@ -10,7 +10,12 @@ GridS(Ps,Ms,Ns,k,Ss) == {[P |-> p, Max |-> m, N |-> n, Outs |-> OutsOf(s,n), Fau
 Grid(Ps,Ms,Ns,k) == GridS(Ps,Ms,Ns,k,{"one"})
 NonUnit == Shapes \ {"one"}
 Legal(c) == c.Faults \subseteq 1..c.N /\ ~(c.P = 1 /\ c.Max = 0)      \* P=1,Max=0 is the in-process path (no concurrency)
-QuickConfigs    == {c \in Grid(1..2, 0..2, 0..4, 1) \cup GridS(1..2, 0..2, 1..3, 1, NonUnit) : Legal(c) /\ (c.Abandon => c.Faults = {})}
-ThoroughConfigs == {c \in Grid(1..3, 0..2, 0..4, 2) \cup GridS(1..3, 0..2, 1..4, 1, NonUnit) : Legal(c) /\ (c.P = 3 => Cardinality(c.Faults) <= 1 /\ c.N <= 3)}
+\* quick: the non-1:1 shapes on a smaller grid (at most 3 outputs in all, no early abandon)
+QuickNonUnit    == {c \in GridS(1..2, 0..2, 1..3, 1, NonUnit) : ~c.Abandon /\ (c.N = 3 => c.Outs \in {OutsOf("sparse",3), OutsOf("mix",3)})}
+QuickConfigs    == {c \in Grid(1..2, 0..2, 0..4, 1) \cup QuickNonUnit : Legal(c) /\ (c.Abandon => c.Faults = {})}
+OnlyNonUnit     == {c \in QuickNonUnit : Legal(c)}
+\* thorough: all non-1:1 shapes up to 3 items (up to 6 outputs) incl. early abandon for P <= 2 (measured +1.8 M states), 2 items for P = 3
+ThoroughNonUnit == GridS(1..2, 0..2, 1..3, 1, NonUnit) \cup {c \in GridS({3}, 0..2, 1..2, 1, NonUnit) : ~c.Abandon}
+ThoroughConfigs == {c \in Grid(1..3, 0..2, 0..4, 2) \cup ThoroughNonUnit : Legal(c) /\ (c.P = 3 => Cardinality(c.Faults) <= 1 /\ c.N <= 3)}
 mcMaxWorkers == 7
 =============================================================================
